@@ -553,6 +553,9 @@ def _progress_stmt(st, counters, shrink):
             and isinstance(st.op, ast.Add):
         v = pat.const_value(st.value)
         return v is not None and v > 0
+    if isinstance(st, ast.Delete) and any(isinstance(t, ast.Subscript) and pat.root_name(t.value) in shrink
+                                          for t in st.targets):
+        return True
     calls = [st.value] if isinstance(st, ast.Expr) else [st.value] if isinstance(st, ast.Assign) else []
     for c in calls:
         for x in ast.walk(c):
@@ -690,6 +693,23 @@ def loop_witness(fn, loop, ctx=None):
             r = pat.root_name(n.comparators[0])
             if r:
                 shrink.add(r)
+    # collections measured by their truthiness (`while xs:`, `while xs and ys:`, `while not done and xs:`), provided
+    # the loop removes elements from them
+    def truthy_names(t):
+        if isinstance(t, ast.Name):
+            return {t.id}
+        if isinstance(t, ast.BoolOp):
+            return set().union(*[truthy_names(v) for v in t.values])
+        if isinstance(t, ast.UnaryOp) and isinstance(t.op, ast.Not):
+            return truthy_names(t.operand)
+        return set()
+    removed_from = set()
+    for n in ast.walk(loop):
+        if isinstance(n, ast.Call) and isinstance(n.func, ast.Attribute) and n.func.attr in ("pop", "remove"):
+            removed_from.add(pat.root_name(n.func.value))
+        if isinstance(n, ast.Delete):
+            removed_from |= {pat.root_name(t.value) for t in n.targets if isinstance(t, ast.Subscript)}
+    shrink |= truthy_names(test) & removed_from
     called = {n.func.id for n in ast.walk(test) if isinstance(n, ast.Call) and isinstance(n.func, ast.Name)}
     counters = names - shrink - called
     const_true = isinstance(test, ast.Constant) and test.value is True
@@ -730,7 +750,9 @@ def loop_witness(fn, loop, ctx=None):
 
 
 def _filled_only_from_pops(loop, name, shrink):
-    """local list `name` receives only elements popped from the loop collection within the loop"""
+    """local list `name` receives, within `loop`, only elements taken out of the loop collection: popped elements, or
+    the loop variable of a `for` over the collection (at most one append per iteration) -- so it never holds more
+    elements than the collection does"""
     popped_vars = set()
     for n in ast.walk(loop):
         if isinstance(n, ast.Assign) and isinstance(n.value, ast.Call) and isinstance(n.value.func, ast.Attribute) \
@@ -738,12 +760,33 @@ def _filled_only_from_pops(loop, name, shrink):
             for t in n.targets:
                 if isinstance(t, ast.Name):
                     popped_vars.add(t.id)
+    par = pat.parents_of(loop)
     for n in ast.walk(loop):
         if isinstance(n, ast.Call) and isinstance(n.func, ast.Attribute) and n.func.attr in ("append", "add", "insert") \
                 and pat.root_name(n.func.value) == name:
             a = n.args[-1]
-            if not (isinstance(a, ast.Name) and a.id in popped_vars):
+            if isinstance(a, ast.Name) and a.id in popped_vars:
+                continue
+            # the element is the variable of the nearest enclosing `for` over the collection
+            p, ok = par.get(id(n)), False
+            while p is not None:
+                if isinstance(p, (ast.For, ast.While)):
+                    ok = isinstance(p, ast.For) and isinstance(a, ast.Name) and pat.is_name(p.target, a.id) \
+                        and pat.root_name(p.iter) in shrink and isinstance(p.iter, ast.Name)
+                    if ok:
+                        # one append of the element per iteration at most
+                        same = [x for x in ast.walk(p) if isinstance(x, ast.Call) and isinstance(x.func, ast.Attribute)
+                                and x.func.attr in ("append", "add", "insert", "extend") and pat.root_name(x.func.value) == name]
+                        ok = len(same) == 1
+                    break
+                p = par.get(id(p))
+            if not ok:
                 return False
+        if isinstance(n, ast.Call) and isinstance(n.func, ast.Attribute) and n.func.attr in ("extend", "update") \
+                and pat.root_name(n.func.value) == name:
+            return False
+        if isinstance(n, ast.AugAssign) and pat.root_name(n.target) == name:
+            return False
     return True
 
 
